@@ -14,8 +14,8 @@ TECHNIQUE = {
     "C05": _T_BASE + _T_TR.format(what="the lookup classes (serialize/lookup.py, parse/lookup.py) and split_iri") + _T_DIFF,
     "C18": _T_BASE + _T_TR.format(what="the lookup classes (Lookup.insert / make_last_to_evict / encode_entry_index: the pinning logic) and the row bracket TermEncoder.start_row / end_row") + _T_DIFF,
     "C20": _T_BASE + _T_TR.format(what="the row bracket TermEncoder.start_row / end_row (when a stream refuses to go on) and the pinning logic of the lookup classes") + _T_DIFF,
-    "C03": _T_BASE + _T_TR.format(what="TermEncoder.encode_iri_indices and the lookup classes it drives (entry rows, ids, zero forms)") + _T_DIFF + "; the Lean reference decoder run on the real bytes",
-    "C19": _T_BASE + _T_TR.format(what="TermEncoder.encode_iri_indices and the lookup classes (when an entry is sent, when an id is 0)") + _T_DIFF + "; row-level compression audit of the real bytes by the Lean referee",
+    "C03": _T_BASE + _T_TR.format(what="TermEncoder.encode_iri_indices / encode_literal and the lookup classes they drive (entry rows, ids, zero forms, oneof member)") + _T_DIFF + "; the Lean reference decoder run on the real bytes",
+    "C19": _T_BASE + _T_TR.format(what="TermEncoder.encode_iri_indices / encode_literal and the lookup classes (when an entry is sent, when an id is 0)") + _T_DIFF + "; row-level compression audit of the real bytes by the Lean referee",
     "C06": _T_BASE + _T_TR.format(what="the frame-flow classes (serialize/flows.py)") + _T_DIFF,
     "C07": _T_BASE + _T_TR.format(what="the grouped frame-flow classes (serialize/flows.py)") + _T_DIFF,
     "C11": _T_BASE + _T_TR.format(what="the bounded frame-flow classes (serialize/flows.py)") + _T_DIFF,
